@@ -5,6 +5,8 @@
 (*              client] (0 = None); events name a source by its position,   *)
 (*              the oracle identifies it by its tuple,                      *)
 (*      scale = scale of totals and percentiles.                            *)
+(* IncRun names its sources by a sequence of positions (srcs) with a        *)
+(* sequence of amounts of the same length.                                  *)
 EXTENDS VarzAbs, Json, IOUtils
 
 Traces == ndJsonDeserialize(IOEnv.TRACE_FILE)
@@ -16,6 +18,7 @@ Ev == Traces[tid].ev
 Cfg == Traces[tid].cfg
 Src(i) == Cfg.srcs[i]
 SrcOk(e) == e.src \in DOMAIN Cfg.srcs
+RunSrcs(e) == [i \in DOMAIN e.srcs |-> Src(e.srcs[i])]
 
 TInit == /\ tid \in 1..Len(Traces)
          /\ l = 1
@@ -25,7 +28,10 @@ TInit == /\ tid \in 1..Len(Traces)
 CheckOf(e) ==
   CASE e.e = "Inc" -> IF SrcOk(e) THEN IncCheck(e.metric, Src(e.src), e.amt) ELSE "harness.source"
     [] e.e = "Set" -> IF SrcOk(e) THEN SetCheck(e.metric, Src(e.src), e.v) ELSE "harness.source"
-    [] e.e = "Sample" -> IF SrcOk(e) THEN SampleCheck(e.metric, Src(e.src), e.v) ELSE "harness.source"
+    [] e.e = "Sample" -> IF SrcOk(e) THEN SampleCheck(e.metric, Src(e.src), e.v, e.room, e.took) ELSE "harness.source"
+    [] e.e = "IncRun" -> IF \A i \in DOMAIN e.srcs : e.srcs[i] \in DOMAIN Cfg.srcs
+                         THEN IncRunCheck(e.metric, RunSrcs(e), e.amts) ELSE "harness.source"
+    [] e.e = "Tick" -> TickCheck(e.dt)
     [] e.e = "Agg" -> AggCheck(e.metric, e.sel, e.key, e.total, e.series, e.cnt, e.pcts, e.lo, e.hi)
     [] e.e = "AggDone" -> AggDoneCheck(e.metric, e.sel, e.nkeys)
     [] OTHER -> "harness.unknownEvent"
@@ -34,6 +40,8 @@ UpdOf(e) ==
   CASE e.e = "Inc" -> IncUpd(e.metric, Src(e.src), e.amt)
     [] e.e = "Set" -> SetUpd(e.metric, Src(e.src), e.v)
     [] e.e = "Sample" -> SampleUpd(e.metric, Src(e.src), e.v)
+    [] e.e = "IncRun" -> IncRunUpd(e.metric, RunSrcs(e), e.amts)
+    [] e.e = "Tick" -> AggUpd
     [] e.e = "Agg" -> AggUpd
     [] e.e = "AggDone" -> AggUpd
 
